@@ -310,7 +310,13 @@ func compareTable(c *fw.Ctx, rule, what string, fn *ssa.Function, resIdx int, va
 		if len(rows) == 0 {
 			got = "<no path>"
 		}
-		if got != want && strings.Contains(got, "unknown") {
+		foreign := false
+		for o := range outs {
+			if !oracleOutcomes[o] {
+				foreign = true // an outcome outside the oracle's vocabulary (a computed value, say)
+			}
+		}
+		if got != want && (strings.Contains(got, "unknown") || (foreign && len(rows) > 0)) {
 			notUnderstood[fmt.Sprintf("for [%s] the code's outcome is not understood (%s)", a.String(), got)] = true
 			return
 		}
